@@ -1253,6 +1253,24 @@ func init() {
 		}
 		return &Block{Stmts: append(stmts, body.Stmts...), Final: body.Final}
 	}})
+	// 48 two records with the same fields: a literal that NAMES the later-sorted one, directly followed by an unqualified
+	// literal (an R: the first by name), which then meets an explicitly qualified R in one slice (after seed C17i: a
+	// transpiler that remembers the record of the previous literal)
+	add(prod{ext: true, name: "record-twin-literals", tiny: true, block: true, app: any_, mk: func(g *Gen, t Type, env Env2, fuel, pos int) Expr {
+		f := g.split(fuel-1, 2)
+		rq, ru := g.freshName("rq"), g.freshName("ru")
+		body := g.blk(t, env, f[1])
+		mkR := func(rec string, q bool, a Expr, b string) Expr {
+			return RecordLit{Rec: rec, Qualified: q, Fields: []FieldInit{{"A", a}, {"B", StrLit{b}}}}
+		}
+		sum := BinOp{"+", BinOp{"+", Field{Var{rq}, "A"}, Field{Var{ru}, "A"}}, call("slice.Length", SliceLit{[]Expr{Var{ru}, mkR("R", true, IntLit{2}, "w")}})}
+		stmts := []Stmt{
+			Let{rq, mkR("Rz", true, IntLit{100}, "q")},
+			Let{ru, mkR("R", false, g.Gen("int", env, f[0], PosExpr), "u")},
+			ExprStmt{call("say", call("frt.Sprintf1", StrLit{"%d"}, sum))},
+		}
+		return &Block{Stmts: append(stmts, body.Stmts...), Final: body.Final}
+	}})
 	// 25 sequencing
 	add(prod{name: "seq", rep: true, tiny: true, block: true, app: any_, mk: func(g *Gen, t Type, env Env2, fuel, pos int) Expr {
 		f := g.split(fuel-1, 2)
